@@ -33,6 +33,10 @@ pub struct Client<'a> {
     /// reclamation).
     pub reclaim_pending: bool,
     pub dead: bool,
+    /// Set by a reopen: the full scan right before the close equalled the model. A difference
+    /// right after the reopen is then the effect of close + recovery (an interrupted compaction, the
+    /// flush of the recovered memtable), which C07 forbids as much as C01 does.
+    pub matched_before_close: bool,
 }
 
 fn with_out<R>(out: &Shared, f: impl FnOnce(&mut RunOutput) -> R) -> R {
@@ -225,8 +229,13 @@ impl<'a> Client<'a> {
             }
         };
         if let Some(d) = diff_kv(&fwd, &self.model) {
-            self.finding(Finding::new(&["C01"], "dump-mismatch", "scan", format!("forward scan: {}", d), Some(idx)));
+            if after_open && self.matched_before_close {
+                self.finding(Finding::new(&["C01", "C07"], "dump-mismatch", "reopen", format!("contents differ before the close and after the reopen: {}", d), Some(idx)));
+            } else {
+                self.finding(Finding::new(&["C01"], "dump-mismatch", "scan", format!("forward scan: {}", d), Some(idx)));
+            }
         }
+        self.matched_before_close = false;
         let bwd = {
             let db = self.db.as_ref().unwrap();
             call("scan-backward", || scan_backward(db, None))
@@ -614,6 +623,12 @@ impl<'a> Client<'a> {
                 });
             }
             Op::Reopen { idx: open_idx } => {
+                self.matched_before_close = false;
+                if let Some(db) = self.db.as_ref() {
+                    if let Called::Ok(Ok(v)) = call("scan", || scan_forward(db, None)) {
+                        self.matched_before_close = diff_kv(&v, &self.model).is_none();
+                    }
+                }
                 self.close();
                 if self.dead {
                     return;
@@ -1091,7 +1106,7 @@ pub fn fold_fs_stats(fs: &SimFs, out: &Shared) {
 pub fn body(case: &Case, out: &Shared) {
     let plan = &case.plan;
     let fs = Arc::new(SimFs::new());
-    let mut c = Client { plan, fs: fs.clone(), db: None, knobs: plan.opens[0].clone(), model: Kv::new(), snaps: BTreeMap::new(), iters: BTreeMap::new(), out, reclaim_pending: false, dead: false };
+    let mut c = Client { plan, fs: fs.clone(), db: None, knobs: plan.opens[0].clone(), model: Kv::new(), snaps: BTreeMap::new(), iters: BTreeMap::new(), out, reclaim_pending: false, dead: false, matched_before_close: false };
     if c.open(&plan.opens[0].clone(), true) {
         c.check_all(0, true);
         for (i, op) in plan.ops.iter().enumerate() {
